@@ -2,6 +2,7 @@ package middleware
 
 import (
 	"net/http"
+	"net/url"
 	"strings"
 )
 
@@ -17,7 +18,19 @@ func MakeVirtualHostBucketAddressingMiddleware(baseEndpoint string, next http.Ha
 		if hostname != baseEndpoint && strings.HasSuffix(hostname, endpointSuffix) {
 			bucket := strings.TrimSuffix(hostname, endpointSuffix)
 			if bucket != "" {
-				r.URL.Path = strings.TrimSuffix("/"+bucket+r.URL.Path, "/")
+				prefix := "/" + bucket
+				if r.URL.Path == "" || r.URL.Path == "/" {
+					// Bucket-level request: "/" maps to "/<bucket>".
+					r.URL.Path = prefix
+					r.URL.RawPath = ""
+				} else {
+					// Object-level request: keep the key exactly as sent, including a
+					// trailing "/" (folder markers) and the raw percent-encoding.
+					if r.URL.RawPath != "" {
+						r.URL.RawPath = "/" + url.PathEscape(bucket) + r.URL.RawPath
+					}
+					r.URL.Path = prefix + r.URL.Path
+				}
 			}
 		}
 		next.ServeHTTP(w, r)
